@@ -245,7 +245,23 @@ def c11(run):
                         exhaustive=False)
 
 
-PROPS = {"C01": c01, "C11": c11, "C14": c14, "C15": c15, "C12": c12, "C13": c13, "C05": c05, "C02": c02, "C03": c03, "C04": c04, "C06": c06, "C07": c07, "C08": c08}
+def c20(run):
+    run.design_check("MiscModel", workers=4)
+    t = run.record("misc", "gps", n=T(run, 6000, 300000))
+    run.validate("misc", t, "Trace_misc", label="(V) UTC<->GPS around all leap seconds + 1980..2100", chunk=20000)
+    t = run.record("misc", "airtime", n=T(run, 0, 1))
+    run.validate("misc", t, "Trace_misc", label="(V) airtime sweeps payload 0..255 per parameter point", chunk=T(run, 125, 400))
+    if run.tier == "thorough":
+        run.exhaustive.append("SF 5..12 x BW {125,250,500,812,1625} x CR 1..4 x header x LDRO x preamble 0..64 x payload 0..255")
+    t = run.record("misc", "eirp", n=T(run, 3000, 300000))
+    run.validate("misc", t, "Trace_misc", label="(V) EIRP index for integral/half-integral/random float32 powers, all 256 indices", chunk=50000)
+    run.exhaustive.append("all 256 TXParamSetup EIRP index bytes")
+    run.require_kinds("misc/gps", "misc/gpsback", "misc/gpspair", "misc/airtime", "misc/eirp", "misc/eirpdec")
+    run.rc = run.finish(assumptions=["published leap-second list (IERS) transcribed in spec/lorawan/Misc.tla", "airtime tolerance: the library truncates the symbol time to whole ns, |lib - exact| <= #symbols + preamble + 2 ns is accepted; the symbol COUNT must be exact",
+                                     "the harness splits Go durations/instants into (days, seconds, ns) and base-10^4 limbs by plain integer division", "sensitivity package is not in the statement and not modelled"])
+
+
+PROPS = {"C01": c01, "C20": c20, "C11": c11, "C14": c14, "C15": c15, "C12": c12, "C13": c13, "C05": c05, "C02": c02, "C03": c03, "C04": c04, "C06": c06, "C07": c07, "C08": c08}
 
 
 def replay(run, path):
